@@ -62,12 +62,11 @@ def Leaf.shouldSplit (split : Nat) (l : Leaf) : Bool :=
 /-- `leafNode.splitTo` (`none`: fewer than two keys, the Go code indexes out of range) -/
 def Leaf.split (l : Leaf) : Option (Res Leaf) :=
   let sp := l.es.length / 2
-  match l.es.drop (sp - 1) with
-  | (kp, _) :: (kn, _) :: _ =>
-    if sp = 0 then none
-    else some (.two { l with es := l.es.take sp }
+  match (l.es.take sp).getLast?, (l.es.drop sp).head? with
+  | some (kp, _), some (kn, _) =>
+    some (.two { l with es := l.es.take sp }
       (l.prefix ++ sepKey (kp.drop l.pre) (kn.drop l.pre)) { l with es := l.es.drop sp })
-  | _ => none
+  | _, _ => none
 
 /-- `updateLeaf` after `modify`: drop, split or keep -/
 def Leaf.merge (split : Nat) (l : Leaf) (k : Key) (op : Op) (o : Nat) : Option (Res Leaf) :=
